@@ -1,0 +1,12 @@
+//go:build verif
+// +build verif
+
+package cache
+
+import (
+	"fmt"
+
+	"github.com/evanw/esbuild/internal/js_parser"
+)
+
+func verifJSONOptions(o js_parser.JSONOptions) string { return fmt.Sprintf("%+v", o) }
